@@ -339,4 +339,392 @@ def freshRun (s : WState) : List WOp → Bool
   | [] => true
   | op :: ops => freshOp s op && freshRun (wstep s op).1 ops
 
+
+/-! ## (c) construction of a reader: which temp files does it own when `__init__` returns
+
+  `BaseReader.__init__` is re-entrant (base.py:104-106 "it's entirely possible under multiple inheritance ... that this
+  initializer has already been called").  `NITFReader.__init__` (nitf.py:1250-1255) creates the bookkeeping list
+  `_delete_temp_files`, then builds its data segments (nitf.py:1301) - the handlers of compressed image segments
+  (`_handle_jpeg`, `_handle_jpeg2k_no_mask`, `_handle_jpeg2k_with_mask`, `_handle_imode_s_jpeg`: nitf.py:1614, 1685,
+  1795, 2066) create a `*.sarpy_cache` file with `mkstemp` and append its name to the list - and only then calls
+  `BaseReader.__init__` (nitf.py:1302), which must PRESERVE what is on the list (base.py:126-129:
+  `try: _ = self._delete_temp_files / except AttributeError: self._delete_temp_files = []`) before it adds the
+  `delete_files` argument (base.py:131-139).  Construction is a list of phases; `close()` removes exactly what is on
+  the list (base.py:454-463). -/
+
+inductive Phase where
+  /-- (re)initialise the list.  `guarded = true`: the `try / except AttributeError` form (an existing list is kept);
+      `guarded = false`: the bare assignment `self._delete_temp_files = []` -/
+  | initList (guarded : Bool)
+  /-- a segment handler creates the temp file `f` on disk (`mkstemp`) and, when `register`, appends it to the list -/
+  | mkTemp (f : Nat) (register : Bool)
+  /-- the `delete_files` argument: every entry not yet on the list is appended (base.py:131-139) -/
+  | addFiles (fs : List Nat)
+deriving DecidableEq, Repr, Inhabited
+
+structure CState where
+  /-- the attribute `_delete_temp_files`; `none`: the attribute does not exist yet -/
+  reg : Option (List Nat)
+  /-- every temp file construction has created so far, in order of creation (ground truth) -/
+  made : List Nat
+  /-- construction raised (`AttributeError`: the list is used before it exists) -/
+  failed : Bool
+deriving DecidableEq, Repr, Inhabited
+
+def cinit : CState := { reg := none, made := [], failed := false }
+
+def CState.registered (s : CState) : List Nat := s.reg.getD []
+
+/-- `for entry in delete_files: if entry not in self._delete_temp_files: self._delete_temp_files.append(entry)` -/
+def addNew : List Nat → List Nat → List Nat
+  | l, [] => l
+  | l, f :: fs => addNew (if l.contains f then l else l ++ [f]) fs
+
+def cstep (s : CState) (p : Phase) : CState :=
+  if s.failed then s
+  else match p with
+    | .initList guarded =>
+      match guarded, s.reg with
+      | true, some _ => s
+      | _, _ => { s with reg := some [] }
+    | .mkTemp f register =>
+      -- the file exists from `mkstemp` on, whatever happens next
+      let s1 := { s with made := s.made ++ [f] }
+      if register then
+        match s.reg with
+        | none => { s1 with failed := true }
+        | some l => { s1 with reg := some (l ++ [f]) }
+      else s1
+    | .addFiles fs =>
+      match s.reg with
+      | none => { s with failed := true }
+      | some l => { s with reg := some (addNew l fs) }
+
+def crun (s : CState) : List Phase → CState
+  | [] => s
+  | p :: ps => crun (cstep s p) ps
+
+/-- a phase that cannot lose a registered file -/
+def Phase.guarded : Phase → Bool
+  | .initList g => g
+  | .mkTemp _ r => r
+  | .addFiles _ => true
+
+/-- `BaseReader.__init__(..., delete_files=extra)`; `g`: is its list initialisation guarded -/
+def baseCtorWith (g : Bool) (extra : List Nat) : List Phase := [.initList g, .addFiles extra]
+/-- `NITFReader.__init__` over image segments whose handlers create (and register) the temp files `temps`;
+    `g1`, `g2`: are the list initialisations of `NITFReader.__init__` / `BaseReader.__init__` guarded -/
+def nitfCtorWith (g1 g2 : Bool) (temps extra : List Nat) : List Phase :=
+  .initList g1 :: (temps.map (fun t => Phase.mkTemp t true) ++ baseCtorWith g2 extra)
+
+/-- the constructors as the code has them: both initialisations guarded -/
+def baseCtor (extra : List Nat) : List Phase := baseCtorWith true extra
+def nitfCtor (temps extra : List Nat) : List Phase := nitfCtorWith true true temps extra
+
+/-- a reader together with the result of its construction.  Slot `i` of `r.temp` is the `i`-th registered file. -/
+structure CReader where
+  c : CState
+  /-- temp files that existed before construction (created by the caller and handed over through `delete_files`) -/
+  pre : List Nat
+  r : RState
+deriving DecidableEq, Repr, Inhabited
+
+/-- run the construction phases, then build the reader machine over the registered files (`none`: construction raised) -/
+def cinitReader (ps : List Phase) (pre : List Nat) (prop : Bool) (file : Option Nat) (closeFile : Bool)
+    (kids : Forest) (nfiles : Nat) : Option CReader :=
+  let c := crun cinit ps
+  if c.failed then none
+  else some { c := c, pre := pre, r := rinit prop file closeFile kids nfiles c.registered.length }
+
+/-- is the temp file `f` on disk: it existed before or was created during construction, and it has not been removed -
+    `close()` only removes what is on the list -/
+def CReader.onDisk (x : CReader) (f : Nat) : Bool :=
+  (x.pre.contains f || x.c.made.contains f) && (x.r.temp[x.c.registered.idxOf f]?).getD true
+
+def CReader.step (x : CReader) (op : ROp) : CReader × Out :=
+  let r := rstep x.r op
+  ({ x with r := r.1 }, r.2)
+
+def CReader.run (x : CReader) (ops : List ROp) : CReader := { x with r := rrun x.r ops }
+
+/-! ## (d) writers over blocked image segments
+
+  A NITF image segment with more than one block (or one padded block) is a `BlockAggregateSegment` over one child per
+  block (nitf.py:3923-3961): a `NumpyArraySegment` (in memory) / `NumpyMemmapSegment` (real file), wrapped in a
+  `SubsetSegment` when the block is padded.  Each child keeps its own sample counter; the aggregate claims to be fully
+  written when every child does (data_segment.py:1897-1907: `out = True; for child: out &= child.check_fully_written()`).
+  `NITFWriter.flush()` hands the bytes of an image segment to the target, once, when `force or check_fully_written()`
+  (nitf.py:4124-4134); rows written after the hand-over never reach the target.  An image that exceeds the row limit is a
+  collection of several image segments behind one data segment index (nitf.py:4075-4110); the hand-over is per image
+  segment.  Pixel accounting is per pixel here: `pix` is the ground truth of what has been written. -/
+
+/-- rows `r .. r+n-1`, columns `c .. c+m-1` of a pixel map marked -/
+def markRows : List (List Bool) → Nat → Nat → Nat → Nat → List (List Bool)
+  | [], _, _, _, _ => []
+  | row :: l, 0, 0, _, _ => row :: l
+  | row :: l, 0, n + 1, c, m => setRange row c m :: markRows l 0 n c m
+  | row :: l, r + 1, n, c, m => row :: markRows l r n c m
+
+/-- all pixels of the rectangle exist and are still unwritten -/
+def freshRows : List (List Bool) → Nat → Nat → Nat → Nat → Bool
+  | _, _, 0, _, _ => true
+  | [], _, _ + 1, _, _ => false
+  | row :: l, 0, n + 1, c, m => freshRange row c m && freshRows l 0 n c m
+  | _ :: l, r + 1, n + 1, c, m => freshRows l r (n + 1) c m
+
+def cnt2 : List (List Bool) → Nat
+  | [] => 0
+  | row :: l => cnt row + cnt2 l
+
+def all2 (p : List (List Bool)) : Bool := p.all (fun row => row.all id)
+
+/-- one block of an image segment.
+    `r0 c0`  position of the block in the image the writer's data segment shows,
+    `h w`    its valid (unpadded) size,
+    `pix`    which of its pixels hold written data (ground truth),
+    `count`  the child's `_pixels_written` (raw samples handed to write),
+    `deliv`  which of its pixels' data are in the target -/
+structure Blk where
+  r0 : Nat
+  c0 : Nat
+  h : Nat
+  w : Nat
+  pix : List (List Bool)
+  count : Nat
+  deliv : List (List Bool)
+deriving DecidableEq, Repr, Inhabited
+
+def mkBlk (r0 c0 h w : Nat) : Blk :=
+  { r0 := r0, c0 := c0, h := h, w := w, pix := List.replicate h (List.replicate w false), count := 0,
+    deliv := List.replicate h (List.replicate w false) }
+
+/-- overlap of `[a, a+n)` with `[r0, r0+h)`: (start relative to `r0`, length); `_find_slice_overlap` -/
+def overlap (a n r0 h : Nat) : Nat × Nat :=
+  (max a r0 - r0, min (a + n) (r0 + h) - max a r0)
+
+/-- a chunk (rows `a .. a+n-1`, columns `c .. c+m-1` of the image) reaches a block: the overlap is written into the
+    child array / memory map and the child counts the samples; a block without overlap is skipped
+    (data_segment.py:1940-1971) -/
+def Blk.write (spp : Nat) (inMem : Bool) (b : Blk) (a n c m : Nat) : Blk :=
+  let ro := overlap a n b.r0 b.h
+  let co := overlap c m b.c0 b.w
+  if ro.2 = 0 ∨ co.2 = 0 then b
+  else { b with pix := markRows b.pix ro.1 ro.2 co.1 co.2
+                count := b.count + ro.2 * co.2 * spp
+                deliv := if inMem then b.deliv else markRows b.deliv ro.1 ro.2 co.1 co.2 }
+
+def Blk.expected (spp : Nat) (b : Blk) : Nat := b.h * b.w * spp
+/-- the child's `check_fully_written()` -/
+def Blk.claims (spp : Nat) (b : Blk) : Bool := b.count == b.expected spp
+def Blk.complete (b : Blk) : Bool := all2 b.pix
+def Blk.delivered (b : Blk) : Bool := all2 b.deliv
+
+/-- the loop of `BlockAggregateSegment.check_fully_written` / `BandAggregateSegment.check_fully_written`:
+    `out = True; for child in children: done = child.check_fully_written(); out &= done; return out` -/
+def conj (l : List Bool) : Bool := l.foldl (fun out done => out && done) true
+
+/-- the loop with `out = done` in place of `out &= done`: the status of the last child only -/
+def lastOnly (l : List Bool) : Bool := l.foldl (fun _ done => done) true
+
+/-- one image segment: `coll` the writer's data segment index it belongs to, `spp` raw samples per pixel,
+    `handed` its bytes have been handed to the target (`item_bytes` set / memory map) -/
+structure BSeg where
+  coll : Nat
+  spp : Nat
+  blocks : List Blk
+  handed : Bool
+deriving DecidableEq, Repr, Inhabited
+
+/-- `check_fully_written()` of the image segment's data segment: every block claims -/
+def BSeg.claims (g : BSeg) : Bool := conj (g.blocks.map (Blk.claims g.spp))
+/-- the same with the last-block-only loop (not what the code does; see Props/C19Blocks.lean) -/
+def BSeg.claimsLast (g : BSeg) : Bool := lastOnly (g.blocks.map (Blk.claims g.spp))
+def BSeg.complete (g : BSeg) : Bool := g.blocks.all Blk.complete
+def BSeg.delivered (g : BSeg) : Bool := g.blocks.all Blk.delivered
+
+def BSeg.write (inMem : Bool) (g : BSeg) (a n c m : Nat) : BSeg :=
+  { g with blocks := g.blocks.map (fun b => b.write g.spp inMem a n c m) }
+
+/-- hand the bytes of every block to the target, once (`manager.item_bytes = entry.get_raw_bytes()`, write-once) -/
+def BSeg.hand (g : BSeg) : BSeg :=
+  if g.handed then g
+  else { g with blocks := g.blocks.map (fun b => { b with deliv := b.pix }), handed := true }
+
+/-- one iteration of the hand-over loop of `NITFWriter.flush(force)` (nitf.py:4124-4134): a segment that is already
+    written or already has its bytes is skipped; otherwise it is handed over when `force` or when it claims -/
+def shouldHand (handed force claims : Bool) : Bool := !handed && (force || claims)
+
+structure WBState where
+  closed : Bool
+  gone : Bool
+  owns : Bool
+  inMem : Bool
+  fileOpen : Bool
+  clobbered : Bool
+  /-- (rows, columns) of each data segment of the writer -/
+  shapes : List (Nat × Nat)
+  segs : List BSeg
+deriving DecidableEq, Repr, Inhabited
+
+structure WBCfg where
+  target : Target
+  check : Bool
+  shapes : List (Nat × Nat)
+  /-- per image segment: data segment index, samples per pixel, blocks `(r0, c0, h, w)` -/
+  segs : List (Nat × Nat × List (Nat × Nat × Nat × Nat))
+deriving Repr, Inhabited
+
+def mkBSeg (real : Bool) (d : Nat × Nat × List (Nat × Nat × Nat × Nat)) : BSeg :=
+  { coll := d.1, spp := d.2.1, blocks := d.2.2.map (fun q => mkBlk q.1 q.2.1 q.2.2.1 q.2.2.2), handed := real }
+
+def wbinit (c : WBCfg) : Option WBState :=
+  match c.target with
+  | .path ex =>
+    if c.check && ex then none
+    else some { closed := false, gone := false, owns := true, inMem := false, fileOpen := true,
+                clobbered := ex, shapes := c.shapes, segs := c.segs.map (mkBSeg true) }
+  | .callerMem =>
+    some { closed := false, gone := false, owns := false, inMem := true, fileOpen := true,
+           clobbered := false, shapes := c.shapes, segs := c.segs.map (mkBSeg false) }
+  | .callerReal =>
+    some { closed := false, gone := false, owns := false, inMem := false, fileOpen := true,
+           clobbered := false, shapes := c.shapes, segs := c.segs.map (mkBSeg true) }
+
+inductive WBOp where
+  /-- write rows `a .. a+n-1`, columns `c .. c+m-1` of data segment `i` -/
+  | write (i a n c m : Nat)
+  | flush
+  | close
+  | exit
+  | exitErr
+  | del
+deriving DecidableEq, Repr, Inhabited
+
+def chunkValid (sh : Nat × Nat) (a n c m : Nat) : Bool :=
+  decide (1 ≤ n) && decide (1 ≤ m) && decide (a + n ≤ sh.1) && decide (c + m ≤ sh.2)
+
+def writeSegs (inMem : Bool) (l : List BSeg) (i a n c m : Nat) : List BSeg :=
+  l.map (fun g => if g.coll = i then g.write inMem a n c m else g)
+
+/-- `flush()` without force, with the fully-written test `claimF` -/
+def flushSegsWith (claimF : BSeg → Bool) (l : List BSeg) : List BSeg :=
+  l.map (fun g => if claimF g then g.hand else g)
+
+def wbclose (s : WBState) : WBState :=
+  if s.closed then s
+  else { s with closed := true
+                segs := s.segs.map BSeg.hand
+                fileOpen := if s.owns then false else s.fileOpen }
+
+/-- one operation of a writer whose non-forced flush trusts `claimF` -/
+def wbstepWith (claimF : BSeg → Bool) (s : WBState) (op : WBOp) : WBState × Out :=
+  if s.gone then (s, .gone)
+  else match op with
+    | .write i a n c m =>
+      if s.closed then (s, .refused)
+      else match s.shapes[i]? with
+        | none => (s, .refused)
+        | some sh =>
+          if chunkValid sh a n c m then ({ s with segs := writeSegs s.inMem s.segs i a n c m }, .ok)
+          else (s, .refused)
+    | .flush =>
+      if s.closed then (s, .refused)
+      else ({ s with segs := flushSegsWith claimF s.segs }, .ok)
+    | .close => (wbclose s, .ok)
+    | .exit => (wbclose s, .ok)
+    | .exitErr => (wbclose s, .ok)
+    | .del => ({ wbclose s with gone := true }, .ok)
+
+/-- the writer as the code has it: the aggregate claims when every block claims -/
+def wbstep : WBState → WBOp → WBState × Out := wbstepWith BSeg.claims
+
+def wbrunWith (claimF : BSeg → Bool) (s : WBState) : List WBOp → WBState
+  | [] => s
+  | op :: ops => wbrunWith claimF (wbstepWith claimF s op).1 ops
+
+def wbrun : WBState → List WBOp → WBState := wbrunWith BSeg.claims
+
+def wboutsWith (claimF : BSeg → Bool) (s : WBState) : List WBOp → List Out
+  | [] => []
+  | op :: ops => (wbstepWith claimF s op).2 :: wboutsWith claimF (wbstepWith claimF s op).1 ops
+
+def wbouts : WBState → List WBOp → List Out := wboutsWith BSeg.claims
+
+/-- the overlap of the chunk with the block has not been written yet -/
+def Blk.freshFor (b : Blk) (a n c m : Nat) : Bool :=
+  let ro := overlap a n b.r0 b.h
+  let co := overlap c m b.c0 b.w
+  if ro.2 = 0 ∨ co.2 = 0 then true else freshRows b.pix ro.1 ro.2 co.1 co.2
+
+/-- the chunk of a write touches no pixel that has been written already -/
+def freshOpB (s : WBState) : WBOp → Bool
+  | .write i a n c m =>
+    match s.shapes[i]? with
+    | none => true
+    | some sh =>
+      if s.closed || s.gone || !(chunkValid sh a n c m) then true
+      else s.segs.all (fun g => if g.coll = i then g.blocks.all (fun b => b.freshFor a n c m) else true)
+  | _ => true
+
+def freshRunBWith (claimF : BSeg → Bool) (s : WBState) : List WBOp → Bool
+  | [] => true
+  | op :: ops => freshOpB s op && freshRunBWith claimF (wbstepWith claimF s op).1 ops
+
+def freshRunB : WBState → List WBOp → Bool := freshRunBWith BSeg.claims
+
+/-! ## (e) the existence check of the path-taking writers
+
+  `NITFWriter.__init__` (nitf.py:3547-3552; SICDWriter and SIDDWriter pass `check_existence` on), `CPHDWriter1.__init__`
+  (cphd.py:1347-1352; CRSDWriter1 passes it on), `SIOWriter.__init__` (sio.py:404-409):
+  `if isinstance(file_object, str): if check_existence and os.path.exists(file_object): raise SarpyIOError(...);
+   file_object = open(file_object, 'wb')`.  What is at the path beforehand is one of four things; the test looks at
+  existence only - not at size or content. -/
+
+/-- what is at the target path before the writer is constructed -/
+inductive PrePath where
+  | absent
+  | emptyFile
+  | nonEmptyFile
+  | directory
+deriving DecidableEq, Repr, Inhabited
+
+/-- `os.path.exists(path)` -/
+def PrePath.present : PrePath → Bool
+  | .absent => false
+  | _ => true
+
+/-- the `check_existence` argument: `none` = not given (the default of every writer family is `True`) -/
+def checkOf : Option Bool → Bool
+  | none => true
+  | some b => b
+
+/-- the test in front of `open(path, 'wb')` -/
+def refuses (check present : Bool) : Bool := check && present
+
+/-- outcome of constructing a writer on a path: `refused` = `SarpyIOError` before anything is touched,
+    `failed` = `open` itself raised (a directory), `opened clobbered` = the writer holds its own handle on the path and
+    whatever file was there has been truncated -/
+inductive CtorOut where
+  | refused
+  | failed
+  | opened (clobbered : Bool)
+deriving DecidableEq, Repr, Inhabited
+
+def pathCtor (pre : PrePath) (check : Option Bool) : CtorOut :=
+  if refuses (checkOf check) pre.present then .refused
+  else match pre with
+    | .absent => .opened false
+    | .directory => .failed
+    | _ => .opened true
+
+/-- the object that was at the path is still there, byte for byte, after construction returned or raised -/
+def kept (pre : PrePath) (check : Option Bool) : Bool :=
+  match pathCtor pre check with
+  | .refused => true
+  | .failed => true
+  | .opened clobbered => !clobbered
+
+/-- a (hypothetical) test that also looks at the size: an existing EMPTY file is not refused -/
+def refusesUnlessEmpty (check present nonEmpty : Bool) : Bool := check && present && nonEmpty
+
 end Sarpy.Spec.Lifecycle
